@@ -85,3 +85,7 @@ Fixpoint as_bytes_history (sks : list skip) (e : env) : list val :=
       end
   end.
 Definition c_as_bytes_history (c : list skip * env) : val := VList (as_bytes_history (fst c) (snd c)).
+
+(* util.read_text_body(io.StringIO(s), length, "utf-8"): what it returns and what it leaves *)
+Definition c_read_text_body (c : option Z * str) : val :=
+  let '(a, b) := read_body utf8_width (fst c) (snd c) in VList [VStr a; VStr b].
